@@ -411,6 +411,11 @@ func (u *Unit) condContext(n ast.Node) string {
 	var parts []string
 	for i := len(ifs) - 1; i >= 0; i-- {
 		s := ifs[i]
+		// an `if` one of whose branches only fails is a guard, not a mode switch: code nested in its
+		// surviving branch is as unconditional as code placed after an early return
+		if b := u.BlockOf(s.Cond); b != nil && len(b.Succs) == 2 && (u.FR[b.Succs[0]] || u.FR[b.Succs[1]]) {
+			continue
+		}
 		br := "if"
 		if s.Else != nil && s.Else.Pos() <= n.Pos() && n.End() <= s.Else.End() {
 			br = "else"
